@@ -82,7 +82,6 @@ pub mod wire {
                 let v = self.string()?;
                 out.push((k, v));
             }
-            out.sort();
             Ok(out)
         }
         fn frame(&mut self) -> Result<&'a [u8], String> {
@@ -96,7 +95,10 @@ pub mod wire {
         pub version: u16,
         pub route: Option<String>,
         pub status: Option<u16>,
+        /// sorted by key
         pub headers: Vec<(String, String)>,
+        /// as they appear on the wire
+        pub headers_in_order: Vec<(String, String)>,
         pub body: Vec<u8>,
     }
 
@@ -121,9 +123,11 @@ pub mod wire {
         let version = check_preamble(&mut c)?;
         let mut h = Cursor(c.frame()?);
         let route = h.string()?;
-        let headers = h.map()?;
+        let headers_in_order = h.map()?;
+        let mut headers = headers_in_order.clone();
+        headers.sort();
         let body = c.frame()?.to_vec();
-        Ok(Decoded { version, route: Some(route), status: None, headers, body })
+        Ok(Decoded { version, route: Some(route), status: None, headers, headers_in_order, body })
     }
 
     pub fn decode_response(bytes: &[u8]) -> Result<Decoded, String> {
@@ -134,9 +138,11 @@ pub mod wire {
         if !STATUS_CODES.contains(&status) {
             return Err("status".into());
         }
-        let headers = h.map()?;
+        let headers_in_order = h.map()?;
+        let mut headers = headers_in_order.clone();
+        headers.sort();
         let body = c.frame()?.to_vec();
-        Ok(Decoded { version, route: None, status: Some(status), headers, body })
+        Ok(Decoded { version, route: None, status: Some(status), headers, headers_in_order, body })
     }
 }
 
